@@ -87,6 +87,8 @@ type World struct {
 	monitors []func()
 
 	MaxSteps uint64
+	// HoldAt arms one-shot holds: site -> duration (see policy.Preempt).
+	HoldAt map[string]time.Duration
 	prio     map[string]int // PCT priorities
 	pctPts   map[uint64]bool
 	Stalls   int
@@ -94,7 +96,7 @@ type World struct {
 
 // NewWorld installs the scheduler; must be called inside the bubble by the root goroutine.
 func NewWorld(t *Tape, st Strategy) *World {
-	w := &World{T: t, Strat: st, Faults: map[string]int{}, Probes: map[string]int{}, MaxSteps: 400000, ringMax: 400}
+	w := &World{T: t, Strat: st, Faults: map[string]int{}, Probes: map[string]int{}, MaxSteps: 400000, ringMax: 400, HoldAt: map[string]time.Duration{}}
 	w.hash = 14695981039346656037
 	w.S = simhook.Install((*policy)(w))
 	w.S.Log = func(kind, id, site string) { w.Logf("%s %s %s", kind, id, site) }
@@ -370,6 +372,16 @@ type policy World
 func (p *policy) Preempt(g *simhook.G, site string) bool {
 	w := (*World)(p)
 	st := &w.Strat
+	if d, ok := w.HoldAt[site]; ok {
+		// a targeted scheduling fault armed by the harness: the next goroutine to reach this site is
+		// withheld there for d of simulated time while everything else proceeds (one shot)
+		delete(w.HoldAt, site)
+		g.StallUntil = int64(w.Now() + d)
+		w.Stalls++
+		w.Fault("hold@" + site)
+
+		return true
+	}
 	if st.PCTDepth > 0 {
 		// PCT: at a change point the runner's priority drops below everything else
 		if st.PreemptDen > 0 && w.T.Bias("sched", st.PreemptNum, st.PreemptDen) {
